@@ -93,6 +93,12 @@ pub const CORPUS: &[&str] = &[
     "4k3/8/8/8/5p1p/8/6P1/4K3 w - - 0 1",
     "4k3/1p6/8/P1P5/8/8/8/4K3 b - - 0 1",
     "4k3/6p1/8/5P1P/8/8/8/4K3 b - - 0 1",
+    // stalemate although an en-passant target is set (the capture would uncover the king along the rank)
+    "4k3/pp6/1n6/KPp4r/8/8/8/8 w - c6 0 1",
+    "4k3/ppp5/1n6/KP5r/8/8/8/8 b - - 0 1",
+    "8/8/8/8/kpP4R/1N6/PP6/4K3 b - c3 0 1",
+    // two en-passant captures in a row on the same file
+    "4k3/2p5/8/3P4/1p6/8/2P5/4K3 b - - 0 1",
     // maximal move lists: 16 movable men and two en-passant captures (18 entries)
     "rnbqkbnr/1ppp1ppp/p7/3PpP2/P6P/1P2P3/2P3P1/RNBQKBNR w KQkq e6 0 9",
     "rnbqkbnr/ppp1pppp/8/2PpP3/P6P/3P4/1P3PP1/RNBQKBNR w KQkq d6 0 8",
@@ -271,7 +277,7 @@ pub fn pattern_with(rng: &mut Rng, forced: Option<u64>) -> (Pos, &'static str) {
     for _ in 0..200 {
         let which = match forced {
             Some(k) => k,
-            None => rng.below(16),
+            None => rng.below(18),
         };
         let mut p = Pos::empty();
         let name: &'static str;
@@ -577,6 +583,80 @@ pub fn pattern_with(rng: &mut Rng, forced: Option<u64>) -> (Pos, &'static str) {
                 place_random(&mut p, rng, Kind::K, Col::W);
                 place_random(&mut p, rng, Kind::K, Col::B);
                 p.stm = Col::W;
+            }
+            16 => {
+                // spread-out positions: men on alternating files of every rank, which makes the FEN placement
+                // field as long as it can get (up to 71 characters, 85 for the whole record)
+                name = "spread_out_long_fen";
+                let mut spots: Vec<Sq> = vec![];
+                for r in 0..8 {
+                    let off = rng.below(2) as i32;
+                    for k in 0..4 {
+                        spots.push(mk(off + 2 * k, r).unwrap());
+                    }
+                }
+                rng.shuffle(&mut spots);
+                let n = rng.range(26, 32) as usize;
+                let mut men: Vec<(Kind, Col)> = vec![(Kind::K, Col::W), (Kind::K, Col::B)];
+                for c in [Col::W, Col::B] {
+                    let mut pawns = 0;
+                    for _ in 0..(n / 2 - 1) {
+                        let k = *rng.pick(&[Kind::P, Kind::P, Kind::N, Kind::B, Kind::R, Kind::Q]);
+                        if k == Kind::P && pawns >= 8 {
+                            men.push((Kind::N, c));
+                        } else {
+                            if k == Kind::P {
+                                pawns += 1;
+                            }
+                            men.push((k, c));
+                        }
+                    }
+                }
+                let mut ok = true;
+                for (i, (k, c)) in men.iter().enumerate() {
+                    // pawns may not stand on the back ranks: look for a later free spot
+                    let mut j = i;
+                    while j < spots.len() && *k == Kind::P && (rank_of(spots[j]) == 0 || rank_of(spots[j]) == 7) {
+                        j += 1;
+                    }
+                    if j >= spots.len() {
+                        ok = false;
+                        break;
+                    }
+                    spots.swap(i, j);
+                    p.sq[spots[i] as usize] = Some((*k, *c));
+                }
+                if !ok {
+                    continue;
+                }
+                p.stm = if rng.chance(1, 2) { Col::W } else { Col::B };
+                grant_rights(&mut p, rng);
+                if !kings_apart(&p) || p.strict_validity_error().is_some() {
+                    continue;
+                }
+                return (p, name);
+            }
+            17 => {
+                // both sides have a home pawn whose double step lands beside an enemy pawn: en-passant state in
+                // consecutive plies, often on the same or a neighbouring file
+                name = "consecutive_double_pushes";
+                let f = rng.range(1, 6) as i32;
+                let g = if rng.chance(1, 2) { f } else { f + if rng.chance(1, 2) { 1 } else { -1 } };
+                p.sq[mk(f, 6).unwrap() as usize] = Some((Kind::P, Col::B));
+                p.sq[mk(g, 1).unwrap() as usize] = Some((Kind::P, Col::W));
+                // white pawn beside f on rank 5 (index 4), black pawn beside g on rank 4 (index 3)
+                let wf = f + if rng.chance(1, 2) { 1 } else { -1 };
+                let bf = g + if rng.chance(1, 2) { 1 } else { -1 };
+                match (mk(wf, 4), mk(bf, 3)) {
+                    (Some(a), Some(b)) => {
+                        p.sq[a as usize] = Some((Kind::P, Col::W));
+                        p.sq[b as usize] = Some((Kind::P, Col::B));
+                    }
+                    _ => continue,
+                }
+                place_random(&mut p, rng, Kind::K, Col::W);
+                place_random(&mut p, rng, Kind::K, Col::B);
+                p.stm = if rng.chance(1, 2) { Col::W } else { Col::B };
             }
             12 => {
                 // the side to move is in check by a distant slider and has (almost) a single reply of a chosen
